@@ -41,6 +41,10 @@ type Edge struct {
 	// instead of its declared target - a raw upcaster that routes by payload.
 	// The walk continues from the type that was returned.
 	Ret int `json:"ret,omitempty"`
+	// Scribble: before it builds its result the upcaster extends the slice it
+	// was given in place (append(data, ...), bytes.NewBuffer(data).Write: a
+	// common idiom).  That touches only spare capacity behind its own input.
+	Scribble bool `json:"scribble,omitempty"`
 }
 
 // next is the type an application of e leads to.
@@ -99,8 +103,13 @@ func withTrail(payload string, trail []int) []byte {
 	return b
 }
 
+var scribbleSink []byte
+
 func rawUpcaster(id int, e Edge) eventbus.UpcastFunc {
 	return func(data json.RawMessage) (json.RawMessage, string, error) {
+		if e.Scribble {
+			scribbleSink = append(data, "################################"...)
+		}
 		if e.Fail {
 			return nil, "", fmt.Errorf("edge %d: %w", id, errStep)
 		}
